@@ -227,11 +227,14 @@ class Checker:
         return allok
 
     def guard_only(self, rule: str, node, allowed: Sequence,
-                   f: Optional[Func] = None, what: str = '') -> bool:
+                   f: Optional[Func] = None, what: str = '',
+                   stop=None) -> bool:
         """Every path condition of node is one of `allowed` (the effect must
-        not be *more* restricted than stated: used for must-include sites)."""
+        not be *more* restricted than stated: used for must-include sites).
+        With `stop` (an enclosing statement) only conditions inside it are
+        considered."""
         f = f or self.owner(node)
-        fs = self.facts(node, expand=False)
+        fs = self.facts(node, expand=False, stop=stop)
         env = self.env(node)
         bad = []
         def leaves(fact):
